@@ -83,6 +83,13 @@ Theorem c16_scan_marker_free_text : forall repl t, occurs marker t = false -> sc
 Proof. exact scan_plain. Qed.
 Print Assumptions c16_scan_marker_free_text.
 
+(* the alias  d["_none"] = d[None]  that rendering writes into the caller's dict is harmless for later
+   executions with that dict (or a copy) as long as it still has a None key: the current None entry wins *)
+Theorem c16_stale_alias_ignored : forall quote dflt d v name, has_none d = true ->
+  replace quote dflt ((Some none_name, v) :: d) name = replace quote dflt d name.
+Proof. exact stale_alias_ignored. Qed.
+Print Assumptions c16_stale_alias_ignored.
+
 (* ---- a None (falsy) target: the default schema is named explicitly; the documentation says
    "will render with no schema" ---- *)
 Theorem c16_none_target_doc_refuted : exists quote dflt m s text,
